@@ -14,6 +14,8 @@ EXPLICIT = {
     "two-procedures-with-code-between": [".cfi_startproc", "nop", ".cfi_endproc", "nop", ".cfi_startproc", "nop", ".cfi_def_cfa_offset 32", "nop", ".cfi_endproc"],
     "three-procedures-back-to-back": [".cfi_startproc", "nop", ".cfi_endproc", ".cfi_startproc", "nop", ".cfi_def_cfa_offset 16", ".cfi_endproc", ".cfi_startproc", "nop", ".cfi_endproc"],
     "procedure-after-plain-code": ["nop", "nop", ".cfi_startproc", "nop", ".cfi_def_cfa_offset 16", "nop", ".cfi_endproc"],
+    # a second procedure in ANOTHER section, closed right after its last instruction (the directive sits on a trailing empty block)
+    "procedure-in-another-section": [".cfi_startproc", "nop", ".cfi_def_cfa_offset 16", "nop", ".cfi_endproc", '.section .text.cold,"ax",@progbits', ".cfi_startproc", "nop", "ret", ".cfi_endproc"],
     # several labels at ONE position, each followed by a directive: the directives take effect in the order written
     "stacked-labels-each-with-a-directive": [".cfi_startproc", "nop", ".La:", ".cfi_remember_state", ".Lb:", ".cfi_def_cfa_offset 24", ".Lc:", ".cfi_restore_state", "nop", ".cfi_endproc"],
     "stacked-labels-two-offsets": [".cfi_startproc", "nop", ".La:", ".cfi_def_cfa_offset 16", ".Lb:", ".cfi_def_cfa_offset 24", "nop", ".Lc:", ".cfi_def_cfa_offset 32", ".Ld:", ".cfi_def_cfa_offset 40", ".Le:", "nop", ".cfi_endproc"],
@@ -29,6 +31,8 @@ def _expected(lines):
     """per nop index: None outside a procedure, else the CFA offset in effect BEFORE that instruction (8 at a startproc on x86-64)"""
     out, inside, cfa, saved = [], False, None, []
     for l in lines:
+        if l.startswith(".section"):
+            break                           # (the per-instruction comparison is made for the main section; the whole module must still evaluate)
         if l.endswith(":"):
             continue
         if l == ".cfi_remember_state":
@@ -61,7 +65,8 @@ def explicit_procedures(tier, seed):
         logging.getLogger("gtirb_rewriting").setLevel(logging.CRITICAL)
         br = BResult()
         br.bound = "5 texts with explicit .cfi_startproc / .cfi_endproc (one, two and three procedures, back to back, with code between, after plain code) x {register_insert_function into the scen module (with / without its own CFI), Assembler(implicit_cfi_procedure=False).finalize().create_ir()}"
-        br.clauses = ["C08/explicit/evaluates-cleanly", "C08/explicit/every-instruction-inside-a-procedure-iff-the-text-says-so-with-the-state-the-text-gives"]
+        br.clauses = ["C08/explicit/evaluates-cleanly", "C08/explicit/every-instruction-inside-a-procedure-iff-the-text-says-so-with-the-state-the-text-gives",
+                      "C08/explicit/every-procedure-of-the-text-is-opened-and-closed-once-on-blocks-of-the-module"]
         distinct = set()
 
         def states(m, blocks):
@@ -91,10 +96,10 @@ def explicit_procedures(tier, seed):
                     a.assemble("\n".join(lines))
                     ir2 = a.finalize().create_ir()
                     m2 = ir2.modules[0]
-                    for bi_ in m2.byte_intervals:
+                    for n_, bi_ in enumerate(sorted(m2.byte_intervals, key=lambda x: x.section.name)):
                         if bi_.address is None:
-                            bi_.address = 0x4000
-                    got = states(m2, [b for b in m2.code_blocks])
+                            bi_.address = 0x4000 + 0x1000 * n_       # (one address range per section: the evaluator walks blocks in address order)
+                    got = states(m2, [b for b in m2.code_blocks if b.section.name == ".text"])
                 else:
                     ir, m, bi, blocks, fl = scen.build(scen.Shape("plain", True, cfi="whole" if how.endswith("with-cfi") else "none"))
                     rc = RewritingContext(m, fl)
@@ -106,6 +111,19 @@ def explicit_procedures(tier, seed):
             except Exception as ex:      # noqa
                 br.failures.append({"clause": "C08/explicit/evaluates-cleanly", "witness": desc, "detail": "%s: %s" % (type(ex).__name__, str(ex)[:100])})
                 continue
+            # "every CFI procedure is opened and closed exactly once": as many .cfi_startproc / .cfi_endproc ON BLOCKS OF THE MODULE as the text has
+            # (whether an unclosed procedure makes the evaluator fail depends on which section the layout happens to put first)
+            from gtirb_rewriting import _auxdata as _ad
+            mm = m2 if how == "create_ir" else m
+            live = set(mm.byte_blocks)
+            tab = _ad.cfi_directives.get(mm) or {}
+            base = 0 if how != "inserted-function-into-a-module-with-cfi" else 1
+            for d in (".cfi_startproc", ".cfi_endproc"):
+                have = sum(1 for k, ds in tab.items() if k.element_id in live for x in ds if x[0] == d)
+                stray = sum(1 for k, ds in tab.items() if k.element_id not in live for x in ds if x[0] == d)
+                if have != lines.count(d) + base or stray:
+                    br.failures.append({"clause": "C08/explicit/every-procedure-of-the-text-is-opened-and-closed-once-on-blocks-of-the-module", "witness": desc,
+                                        "detail": "%s: the text has %d, blocks of the module carry %d (+%d the module had), %d sit on blocks that are not in the module" % (d, lines.count(d), have - base, base, stray)})
             if got[:len(want)] != want:
                 br.failures.append({"clause": "C08/explicit/every-instruction-inside-a-procedure-iff-the-text-says-so-with-the-state-the-text-gives", "witness": desc,
                                     "detail": "CFA offset per instruction %s, the text says %s" % (got[:len(want)], want)})
